@@ -1,3 +1,6 @@
 //! rtcmon – runtime monitors for restsend/rustrtc (see /verif/DESIGN.md).
 pub mod common;
 pub mod engines;
+pub mod rig;
+pub mod sctprd;
+pub mod wire;
